@@ -1,3 +1,4 @@
+import BoxoModel.Gen.C29
 /-
 C29 — namesys: executable model of publishing (sequence rule, publish-time cache fill), the resolver
 cache and recursive resolution.
@@ -124,10 +125,10 @@ def capTTL (s : St) (ttl : Int) : Int :=
   | some m => if m > 0 ∧ ttl > m then m else ttl
   | none => ttl
 
-/-- `minNonZeroTTL` -/
+/-- `minNonZeroTTL`: NOT hand-written — `Gen.C29.minNonZeroTTL` is regenerated from
+namesys/utilities.go by `extract ints` (T-gen) on every check; durations are Go int64. -/
 def minNonZeroTTL (a b : Int) : Int :=
-  let ttl := min a b
-  if ttl ≤ 0 then max 0 (max a b) else ttl
+  (Gen.C29.minNonZeroTTL (BitVec.ofInt 64 a) (BitVec.ofInt 64 b)).toInt
 
 inductive PubRes where
   | ok | badseq | puterr
